@@ -510,9 +510,14 @@ def pack_into_passes(nng, arch, verbose_packing=False):
                     # Op has dynamic weights, include this in the check below
                     ifm2 = ps.ops[0].weights
 
+            # Every other input of the pass (e.g. a non-constant axis, shape or padding tensor) must come from the
+            # startup pass as well, otherwise the pass would be moved in front of the pass that produces it
+            inputs_from_startup = all(op.scheduled_pass == startup_ps for tens in ps.inputs for op in tens.ops)
+
             if ps.placement == PassPlacement.Cpu and (
                 ps.ops[0].ifm in sg.input_tensors
                 and (ifm2 in sg.input_tensors or ifm2 is None)
+                and inputs_from_startup
                 or (ps.ops[0].type in (Op.VarHandle, Op.ReadVariable, Op.CallOnce))
             ):
                 # This CPU pass only depends on sg.input_tensors or resource variable
